@@ -774,13 +774,90 @@ func orderLeak(start *ssa.Phi) string {
 	if refs == nil {
 		return ""
 	}
+	// an index that walks the chosen run: a header phi of another loop that starts at a result of
+	// the search and is advanced by a constant (for i := start; i < end; i++)
+	isRunIndex := func(v ssa.Value) (*ssa.Phi, bool) {
+		ph, ok := v.(*ssa.Phi)
+		if !ok || search[ph.Block()] || bodyOf(ph.Block()) == nil {
+			return nil, false
+		}
+		fromSearch, stepped := false, false
+		for _, e := range ph.Edges {
+			if ep, ok := e.(*ssa.Phi); ok && ep.Block() == start.Block() {
+				fromSearch = true
+				continue
+			}
+			if b, ok := e.(*ssa.BinOp); ok && b.Op.String() == "+" && b.X == ssa.Value(ph) {
+				if _, isC := b.Y.(*ssa.Const); isC {
+					stepped = true
+					continue
+				}
+			}
+			return nil, false
+		}
+		return ph, fromSearch && stepped
+	}
+	// uses of such an index: its own step, the loop test against another result of the search,
+	// and reading elements of a list
+	indexUses := func(ix *ssa.Phi) string {
+		readLoops[ix.Block()] = true
+		if ix.Referrers() == nil {
+			return ""
+		}
+		for _, u := range *ix.Referrers() {
+			switch y := u.(type) {
+			case *ssa.DebugRef:
+			case *ssa.BinOp:
+				if y.Op.String() == "+" && y.X == ssa.Value(ix) {
+					continue
+				}
+				other := y.X
+				if other == ssa.Value(ix) {
+					other = y.Y
+				}
+				if op, ok := other.(*ssa.Phi); ok && op.Block() == start.Block() && y.Block() == ix.Block() {
+					continue // i < end
+				}
+				return "the index over the chosen run is used in " + y.String()
+			case *ssa.IndexAddr:
+				if y.Index != ssa.Value(ix) {
+					return "the index over the chosen run is used by " + y.String()
+				}
+				if s := readOnly(y, map[ssa.Value]bool{}); s != "" {
+					return s
+				}
+			case *ssa.Index:
+				if s := readOnly(y, map[ssa.Value]bool{}); s != "" {
+					return s
+				}
+			default:
+				return fmt.Sprintf("the index over the chosen run is used by %T (%s)", u, u.String())
+			}
+		}
+		return ""
+	}
 	for _, ref := range *refs {
 		if search[ref.Block()] {
 			continue // part of the search itself
 		}
 		switch x := ref.(type) {
 		case *ssa.DebugRef:
+		case *ssa.Phi:
+			ix, ok := isRunIndex(x)
+			if !ok {
+				return "used by " + x.String()
+			}
+			if s := indexUses(ix); s != "" {
+				return s
+			}
 		case *ssa.BinOp:
+			other := x.X
+			if other == ssa.Value(start) {
+				other = x.Y
+			}
+			if ix, ok := isRunIndex(other); ok && x.Block() == ix.Block() {
+				continue // the loop test i < end of a walk over the chosen run (the walk itself is judged at its index)
+			}
 			if !cmp01(x, start) {
 				return "used in " + x.String()
 			}
